@@ -64,6 +64,26 @@ def _build_h09(ctx, mode="trace"):
             hooked += 1
     if hooked != 2:
         ctx["infra"]("cannot hook strings.Compare / bytes.Compare in %s (std sources differ from what the overlay expects)" % goroot)
+    # time spent asleep is time too: time.Sleep is implemented in the runtime and the timer constructors compute their
+    # deadline in time.when; both get a hook (overlay of time/sleep.go, and of the one linkname line in runtime/time.go
+    # that gives the runtime's sleep its name), so that durations that depend on the submitted code become visible
+    sleep_ok = False
+    if not ctx.get("no_sleephook"):
+        ts, rt = os.path.join(goroot, "src", "time", "sleep.go"), os.path.join(goroot, "src", "runtime", "time.go")
+        if os.path.exists(ts) and os.path.exists(rt):
+            t, r = open(ts).read(), open(rt).read()
+            t2 = t.replace("func Sleep(d Duration)\n",
+                           "func Sleep(d Duration) {\n\tif h := VerifDurationHook; h != nil {\n\t\th(int64(d))\n\t}\n\tverifRuntimeSleep(d)\n}\n\n"
+                           "// verifRuntimeSleep is the runtime's sleep (overlay of /verif/h09: runtime/time.go pushes it under this name).\nfunc verifRuntimeSleep(d Duration)\n\n"
+                           "// VerifDurationHook (overlay of /verif/h09) receives every duration handed to Sleep and to the timer constructors.\nvar VerifDurationHook func(d int64)\n", 1)
+            t2 = t2.replace("func when(d Duration) int64 {\n", "func when(d Duration) int64 {\n\tif h := VerifDurationHook; h != nil {\n\t\th(int64(d))\n\t}\n", 1)
+            r2 = r.replace("//go:linkname timeSleep time.Sleep\n", "//go:linkname timeSleep time.verifRuntimeSleep\n", 1)
+            if t2.count("VerifDurationHook") == 4 and r2 != r:
+                open(os.path.join(ov, "time_sleep.go"), "w").write(t2)
+                open(os.path.join(ov, "runtime_time.go"), "w").write(r2)
+                repl[ts] = os.path.join(ov, "time_sleep.go")
+                repl[rt] = os.path.join(ov, "runtime_time.go")
+                sleep_ok = True
     # the js/wasm binding itself (wasm/main.go, package main, imports syscall/js) is compiled natively as a sub-package of
     # the harness against a stand-in syscall/js, so that its own window loops and argument handling are traced too
     wm_ok = False
@@ -93,7 +113,7 @@ def _build_h09(ctx, mode="trace"):
     _json.dump({"Replace": repl}, open(os.path.join(ov, "overlay.json"), "w"))
     out = os.path.join(work, "h09.%s.test" % mode)
     env = dict(ctx["env"])
-    cmd = ["./build.sh", out, os.path.join(ov, "overlay.json"), mode + ("" if wm_ok else ":nowasmmain")]
+    cmd = ["./build.sh", out, os.path.join(ov, "overlay.json"), mode + ("" if wm_ok else ":nowasmmain") + ("" if sleep_ok else ":nosleephook")]
     if repo != "/repo":
         src = open(os.path.join(moddir, "go.mod")).read().replace("=> /repo", "=> " + repo)
         mf = os.path.join(work, "h09.go.mod")
@@ -101,6 +121,11 @@ def _build_h09(ctx, mode="trace"):
         shutil.copy(os.path.join(moddir, "go.sum"), os.path.join(work, "h09.go.sum"))
         cmd.append("-modfile=" + mf)
     rc, o = ctx["run"](cmd, moddir, env, 1800, os.path.join(work, "build.log"))
+    if rc != 0 and sleep_ok and ("verifRuntimeSleep" in o or "VerifDurationHook" in o or "runtime/time.go" in o or "time/sleep.go" in o):
+        # the std sources differ from what the overlay expects: build without the duration hook; the evidence says so
+        ctx["no_sleephook"] = True
+        ctx["sleephook_error"] = o[-1500:]
+        return _build_h09(ctx, mode)
     if rc != 0 and wm_ok:
         # the binding did not compile against the stand-in syscall/js (it uses more of the API than is modelled):
         # build without that part rather than giving up on the whole property; the evidence says so
@@ -117,7 +142,13 @@ def _build_h09(ctx, mode="trace"):
 def _bins(ctx):
     spec = ctx["spec"]
     if spec.get("builder") == "h09":
-        return _build_h09(ctx)
+        moddir, bins = _build_h09(ctx)
+        if spec.get("also_h"):  # parts of the property that live in the main harness module (they need Node / the wasm module)
+            hmod = os.path.join(ctx["root"], "h")
+            path = os.path.join(ctx["work"], "h.plain.test")
+            ctx["build"](hmod, path, ctx["work"], ctx["env"], tags="verif")
+            bins["hplain"] = path
+        return moddir, bins
     moddir = os.path.join(ctx["root"], spec.get("moddir", "h"))
     need = set(r.get("bin", "plain") for r in spec["runs"])
     if ctx["tier"] == "thorough" and any(f.get("module") != "h09" for f in spec.get("fuzz", [])) and not ctx.get("replay"):
@@ -171,6 +202,12 @@ def _prebuild(ctx):
                 shutil.copy(os.path.join(repo, "otp-js", "src", f), os.path.join(work, "js", "src", f))
             shutil.copy(os.path.join(ctx["root"], "wasm", "driver.js"), os.path.join(work, "js", "driver.js"))
             ctx["env"]["VERIF_JS_DIR"] = os.path.join(work, "js")
+            # names the binding registers on globalThis (the C09 JavaScript-layer part wraps them before start-up)
+            try:
+                names = sorted(set(re.findall(r'\.Set\(\s*"([A-Za-z_$][\w$]*)"', open(os.path.join(repo, "wasm", "main.go")).read())))
+            except OSError:
+                names = []
+            ctx["env"]["VERIF_JS_GLOBALS"] = ",".join(names)
 
 
 def execute(ctx):
@@ -195,12 +232,12 @@ def execute(ctx):
                    "-test.timeout=%ds" % tmo,
                    # the testing package logs every os.Getenv / file access made while the tests run
                    "-test.testlogfile=" + os.path.join(work, "testlog-%d-%d.txt" % (len(jobs), k))] + r.get("args", [])
-            jobs.append(("%s#%d" % (r["name"], k), cmd, env, tmo + 60))
+            jobs.append(("%s#%d" % (r["name"], k), cmd, env, tmo + 60, os.path.join(ctx["root"], r["cwd"]) if r.get("cwd") else moddir))
     failed = []
 
     def one(job):
-        name, cmd, env, tmo = job
-        rc, out = ctx["run"](cmd, moddir, env, tmo, os.path.join(work, "run.log"))
+        name, cmd, env, tmo, cwd = job
+        rc, out = ctx["run"](cmd, cwd, env, tmo, os.path.join(work, "run.log"))
         return name, rc, out
 
     with ThreadPoolExecutor(max_workers=ctx["ncpu"]) as ex:
@@ -221,13 +258,13 @@ def execute(ctx):
         extra["environment"] = {"variables_consulted_by_code_under_test": unknown}
         if unknown:
             def again(job):
-                name, cmd, env, tmo = job
+                name, cmd, env, tmo, cwd = job
                 env = dict(env)
                 for n in unknown:
                     env[n] = "1"
                 env["VERIF_EXTRA_ENV"] = "\x1f".join("%s=1" % n for n in unknown)
                 cmd = [c for c in cmd if not c.startswith("-test.testlogfile=")]
-                rc, out = ctx["run"](cmd, moddir, env, tmo, os.path.join(work, "run.log"))
+                rc, out = ctx["run"](cmd, cwd, env, tmo, os.path.join(work, "run.log"))
                 return name + "[env " + ",".join(unknown) + "=1]", rc, out
             with ThreadPoolExecutor(max_workers=ctx["ncpu"]) as ex:
                 for name, rc, out in ex.map(again, jobs):
@@ -263,6 +300,8 @@ def execute(ctx):
                 break
         if fz:
             extra["native_fuzz"] = fz
+    if ctx.get("no_sleephook"):
+        extra["sleep_durations_not_traced"] = "time.Sleep / timer durations were not observed in this run (the overlay of time/sleep.go and runtime/time.go did not apply): " + ctx.get("sleephook_error", "std sources differ")[-600:]
     if ctx.get("wasmmain_error"):
         extra["wasm_main_not_traced"] = "wasm/main.go did not compile against the stand-in syscall/js; its exported functions were not traced in this run: " + ctx["wasmmain_error"][-600:]
     return {"failed": failed, "extra_cov": extra, "nshards": max_shards}
@@ -288,6 +327,8 @@ def replay(ctx):
     except Exception:
         pass
     kind = "plain" if "plain" in bins else sorted(bins)[0]
+    if part == "js-layer" and "hplain" in bins:  # C09's JavaScript-layer part lives in the main harness module
+        kind, moddir = "hplain", os.path.join(ctx["root"], "h")
     rc, out = ctx["run"]([bins[kind], "-test.run", "^TestReplay$", "-test.count=1", "-test.v", "-test.timeout=600s"],
                          moddir, env, 700)
     if "REPLAY-VIOLATION" in out:
